@@ -428,3 +428,92 @@ def validate_rows(module, cfg, trace_file, *, workers=8, timeout=900, env=None, 
         raise MachineryError("%s: violation reported but no index parsed:\n%s" % (module, res.output[-3000:]))
     res.bad_names = names
     return res, sorted(bad)
+
+
+# --------------------------------------------------------------------------- standard flow
+
+def last_index(res_output, tr, var_tr="tr", var_i="i"):
+    """Position `i` reached in the violating behaviour of trace number `tr` (if printed)."""
+    best = None
+    for chunk in re.split(r"Error: Invariant \S+ is violated", res_output)[1:]:
+        m = re.search(r"^(?:/\\ )?%s = (\d+)" % var_tr, chunk, re.M)
+        if m and int(m.group(1)) == tr:
+            for mi in re.finditer(r"^(?:/\\ )?%s = (\d+)" % var_i, chunk, re.M):
+                best = int(mi.group(1))
+    return best
+
+
+def flow(ck, *, mcs, sub, trace_module, trace_cfg, trace_file, var="tr", key_of=None,
+         describe=None, nontrivial=None, distinct_key=None, selftest=None, drive_args=None,
+         replay_rows=None, mc_module=None, workers=8, drive_timeout=1800, tlc_timeout=1800):
+    """The common shape of a check:
+       A  run each exhaustive config in `mcs` [(module, cfg, kwargs)] — must pass (spec-level);
+       C  run harness sub-command `sub` on the real code -> ndjson; TLC validates every line
+          against `trace_module`; each rejected line is an observation of the real code that the
+          spec forbids -> ck.observe(key, ...).
+       selftest(rows) -> mutated rows that MUST be rejected (binding is live), thorough tier."""
+    for module, cfg, kw in mcs:
+        r = run_tlc(module, cfg, **kw)
+        require_tlc_ok(r, cfg)
+        ck.add_tlc(cfg, r)
+    binary = build_harness()
+    with Scratch("verif-%s-" % ck.pid.lower()) as d:
+        trace = os.path.join(d, trace_file)
+        if replay_rows is None:
+            rc, out = run_drive(binary, sub, ["-out", d, "-tier", ck.tier, "-seed", ck.seed] + (drive_args or []),
+                                timeout=drive_timeout)
+            tail = out.strip().splitlines()
+            if tail:
+                log("[drive] " + tail[-1])
+        else:
+            write_ndjson(trace, replay_rows)
+        rows = read_ndjson(trace)
+        if not rows:
+            raise MachineryError("harness produced no observations")
+        res, bad = validate_rows(trace_module, trace_cfg, trace, var=var, workers=workers, timeout=tlc_timeout)
+        ck.add_tlc(trace_cfg, res)
+        ck.traces += len(rows)
+        ck.evaluations += len(rows)
+        for r in rows:
+            if nontrivial is None or nontrivial(r):
+                ck.add_distinct(distinct_key(r) if distinct_key else json.dumps(r, sort_keys=True)[:400])
+        step = max(1, len(rows) // 4)
+        for r in rows[::step][:4]:
+            ck.add_sample(_shorten(r))
+        groups = {}
+        for i in bad:
+            r = rows[i - 1]
+            k = key_of(r) if key_of else "rejected"
+            groups.setdefault(k, []).append(i)
+        for k, idxs in groups.items():
+            r = rows[idxs[0] - 1]
+            pos = last_index(res.output, idxs[0], var_tr=var)
+            desc = "%s: real-code observation rejected by %s (%d lines; invariants %s%s); first: %s" % (
+                k, trace_module, len(idxs), sorted(res.bad_names.get(idxs[0], [])),
+                (", at event %s" % pos) if pos is not None else "",
+                (describe(r) if describe else json.dumps(_shorten(r)))[:600])
+            ck.observe(k, desc, dict(sub=sub, rows=[rows[j - 1] for j in idxs[:10]]))
+        if selftest and ck.tier == "thorough" and replay_rows is None:
+            muts = selftest(rows)
+            if muts:
+                st = os.path.join(d, "selftest.ndjson")
+                write_ndjson(st, muts)
+                r2, bad2 = validate_rows(trace_module, trace_cfg, st, var=var, workers=workers, timeout=tlc_timeout)
+                ck.notes["selftest"] = dict(mutated_traces=len(muts), rejected=len(bad2))
+                if len(bad2) != len(muts):
+                    raise MachineryError("binding self-test failed: %d corrupted traces but only %d rejected" % (
+                        len(muts), len(bad2)))
+    return rows
+
+
+def _shorten(r, n=12):
+    if isinstance(r, dict):
+        return {k: _shorten(v, n) for k, v in r.items()}
+    if isinstance(r, list):
+        return [_shorten(x, n) for x in r[:n]] + (["...(%d more)" % (len(r) - n)] if len(r) > n else [])
+    return r
+
+
+def std_replay(mod_run, path, seed):
+    rp = json.load(open(path))
+    return mod_run("quick", seed, replay_rows=rp["replay"]["rows"])
